@@ -6,6 +6,8 @@ FieldValue::from_field_type (private helpers inlined at CFG level, so moving the
   * no arithmetic is applied to a value derived from the input bytes: no + - * / % << >> & | ^ on it, no
     saturating_/wrapping_/checked_/overflowing_ integer method, no min/max/clamp/pow/abs, no narrowing `as` cast
     (arithmetic on *lengths* - `x.len()`, the field_length argument - is not value arithmetic and is ignored);
+  * the decoded bytes / text are not trimmed, truncated, re-cased, filtered, reordered, sub-sliced or canonicalised
+    (trim*, strip_*, truncate, retain, replace, to_*case, `[a..b]`, to_canonical, ...): the value is the bytes sent;
   * a time value is given its unit by the constructor of that unit and nothing else:
     DurationSeconds -> Duration::from_secs, Millis -> from_millis, Micros -> from_micros, Nanos -> from_nanos.
 Both are necessary for the reported value to be the sent one for every value (a saturating multiplication is the
@@ -20,6 +22,8 @@ from ..mir import Callee
 ARITH = {"Add", "Sub", "Mul", "Div", "Rem", "Shl", "Shr", "BitAnd", "BitOr", "BitXor"}
 INT_METHOD = re.compile(r"^core::num::<impl [iu](8|16|32|64|128|size)>::((saturating|wrapping|checked|overflowing|unchecked|strict)_\w+|pow|abs|rem_euclid|div_euclid|rotate_left|rotate_right|swap_bytes|reverse_bits|isqrt|ilog\w*|midpoint|abs_diff)$")
 ORD_METHOD = re.compile(r"^(std|core)::cmp::(Ord::(min|max|clamp)|min|max)$")
+ALTER = re.compile(r"::(trim\w*|strip_\w+|replace\w*|to_(ascii_)?(lower|upper)case|make_ascii_(lower|upper)case|truncate|retain|dedup\w*|sort\w*|reverse|drain|pop|remove|swap_remove|clear|split_off|split_at\w*|to_canonical|to_ipv4\w*|to_ipv6\w*|normalize\w*|round|floor|ceil|trunc|abs|signum|clamp)$")
+RANGE_INDEX = re.compile(r"^std::ops::Range(To|From|Inclusive|ToInclusive|Full)?<")
 DUR_CTOR = re.compile(r"^(std|core)::time::Duration::(from_\w+|new)$")
 FN_ITEM = re.compile(r"\{(std|core)::time::Duration::(from_\w+|new)\}")
 UNIT = {"DurationSeconds": "from_secs", "DurationMillis": "from_millis", "DurationMicros": "from_micros", "DurationNanos": "from_nanos"}
@@ -44,7 +48,15 @@ def from_input_bytes(e, input_arg=1):
     return bool(hit)
 
 
-def rule(ctx, prog, an, rid, floor=14):
+def is_cursor(e):
+    """The input slice itself (the parse cursor), as opposed to bytes / a value taken from it."""
+    e = peel(e)
+    while e[0] in ("ref", "deref"):
+        e = peel(e[1])
+    return e == ("arg", 1)
+
+
+def rule(ctx, prog, an, rid, floor=14, time_units=True):
     def pred(p):
         hb = prog.bodies.get(p)
         return hb is not None and not hb.j.get("pub") and not hb.derived and hb.kind != "Closure" and hb.nblocks <= 150 \
@@ -104,10 +116,16 @@ def rule(ctx, prog, an, rid, floor=14):
                 if INT_METHOD.match(c.npath) or ORD_METHOD.match(c.npath) or ORD_METHOD.match(c.nsyn):
                     if any(from_input_bytes(an.op(b, a)) for a in t["args"]):
                         bad.append(("`%s` applied to a decoded value" % c.npath.rsplit("::", 1)[1], b.line(blk)))
+                elif not c.local and (ALTER.search(c.npath) or ALTER.search(c.nsyn)) and not c.npath.startswith("nom") and t["args"] \
+                        and from_input_bytes(an.op(b, t["args"][0])) and not is_cursor(an.op(b, t["args"][0])):
+                    bad.append(("`%s` alters a decoded value" % c.npath.rsplit("::", 1)[1], b.line(blk)))
+                elif re.search(r"ops::Index(<\w+>)?.*::index$", c.npath + "|" + c.nsyn) and len(t.get("argtys", [])) == 2 and RANGE_INDEX.match(t["argtys"][1]) \
+                        and from_input_bytes(an.op(b, t["args"][0])) and not is_cursor(an.op(b, t["args"][0])):
+                    bad.append(("a sub-range of a decoded value is taken (`[%s]`)" % t["argtys"][1].split("<")[0].rsplit("::", 1)[1], b.line(blk)))
         ctx.ob(rid, c04.FFT, "value-as-sent:%s" % name, not bad,
                "FieldDataType::%s: %s" % (name, "; ".join("%s at %s" % x for x in bad) if bad else "no arithmetic, clamping or narrowing between the wire value and the reported value"),
                site=bad[0][1] if bad else b.line(tb))
-        if name in UNIT:
+        if name in UNIT and time_units:
             got = sorted(set(x[0] for x in ctors))
             ctx.ob(rid, c04.FFT, "time-unit:%s" % name, got == [UNIT[name]],
                    "FieldDataType::%s builds its Duration with %s (the unit of this kind is given by Duration::%s and nothing else)" % (name, got or "no Duration constructor", UNIT[name]),
